@@ -113,8 +113,10 @@ def main():
       probe = tf.keras.Model(i, [model.get_layer("in_act").output] + [l.output for l in lays])
       wmax, wmin = WEIGHT_Q[wq][1], WEIGHT_Q[wq][2]
       xin_max, xin_min = INPUT_Q[iq][1], INPUT_Q[iq][2]
-      patterns = [("maxmax", 1, 1), ("minmin", -1, -1), ("maxmin", 1, -1), ("rand", 0, 0), ("rand2", 0, 0)]
-      for pname, ws, xs in patterns:
+      # (weights sign, inputs sign, bias sign); "maxmin_bneg": negative products AND a negative bias - all sign-aligned
+      patterns = [("maxmax", 1, 1, 1), ("minmin", -1, -1, -1), ("maxmin", 1, -1, 1), ("maxmin_bneg", 1, -1, -1), ("rand", 0, 0, 0),
+                  ("rand2", 0, 0, 0)]
+      for pname, ws, xs, bs in patterns:
         for l in lays:
           ws_ = l.get_weights()
           k = ws_[0]
@@ -129,7 +131,7 @@ def main():
           ws_[0] = np.asarray(qk(tf.constant(k, dtype=tf.float32)))
           if l.use_bias:
             qb = l.get_quantizers()[1]
-            b = np.full(ws_[1].shape, 100.0 if ws >= 0 else -100.0) if ws != 0 else \
+            b = np.full(ws_[1].shape, 100.0 if bs >= 0 else -100.0) if ws != 0 else \
                 np.random.RandomState(rnd.randint(0, 10 ** 6)).uniform(-20, 20, ws_[1].shape)
             ws_[1] = np.asarray(qb(tf.constant(b, dtype=tf.float32)))
           l.set_weights(ws_)
